@@ -560,6 +560,7 @@ func (v *verifier) processSignature(ctx context.Context, sigBlob []byte, envelop
 			return processPluginResponse(capabilitiesToVerify, response, outcome)
 		}
 	}
+
 	return nil
 }
 
@@ -885,8 +886,14 @@ func executePlugin(ctx context.Context, installedPlugin pluginframework.VerifyPl
 	extendedAttributes := make(map[string]interface{})
 
 	for _, attr := range getNonPluginExtendedCriticalAttributes(signerInfo) {
-		extendedAttributes[attr.Key.(string)] = attr.Value
-		attributesToProcess = append(attributesToProcess, attr.Key.(string))
+		// TODO support other attribute types
+		// (COSE attribute keys can be numbers)
+		attrStrKey, ok := attr.Key.(string)
+		if !ok {
+			return nil, fmt.Errorf("extended critical attribute %v cannot be processed by a verification plugin because its key is not a string", attr.Key)
+		}
+		extendedAttributes[attrStrKey] = attr.Value
+		attributesToProcess = append(attributesToProcess, attrStrKey)
 	}
 	logger.Debugf("Added plugin attributes to be processed %v", attributesToProcess)
 
